@@ -6,7 +6,7 @@ from mc import explore, impl, rt
 from mc.explore import viol
 from stone.ir import data_types as dt
 
-POSITIONS = ('field', 'tag', 'alias', 'route')
+POSITIONS = ('field', 'tag', 'alias', 'route', 'sfield', 'utag')
 _U = {}
 
 
@@ -42,6 +42,10 @@ class Universe:
             return self.HU.fields[i].data_type
         if pos == 'alias':
             return na.alias_by_name['Z%d' % i].data_type
+        if pos == 'sfield':
+            return na.data_type_by_name['Hf%d' % i]
+        if pos == 'utag':
+            return na.data_type_by_name['Ht%d' % i]
         return na.routes_by_name['r%d' % i].at_version[1].arg_data_type
 
     def validator(self, pos, i):
@@ -51,6 +55,10 @@ class Universe:
             return self.na.HolderU._tagmap['t%d' % i]
         if pos == 'alias':
             return getattr(self.na, 'Z%d_validator' % i)
+        if pos == 'sfield':
+            return getattr(self.na, 'Hf%d_validator' % i)
+        if pos == 'utag':
+            return getattr(self.na, 'Ht%d_validator' % i)
         return getattr(self.na, 'r%d' % i).arg_type
 
 
@@ -78,7 +86,10 @@ def user_shape_indices(tier):
     for i, s in enumerate(u.shapes):
         if '(' in s or '?' in s:
             continue
-        if isinstance(rt.unalias(u.ir_type('alias', i)), (dt.Struct, dt.Union)):
+        t = rt.unalias(u.ir_type('alias', i))
+        if isinstance(t, dt.Nullable):
+            t = rt.unalias(t.data_type)
+        if isinstance(t, (dt.Struct, dt.Union)):
             out.append(i)
     return out
 
@@ -88,7 +99,51 @@ def history_items(tier):
     process forked from the pristine parent (explore.pmap fresh=True), so that every (first, second) order of two user types is
     observed with nothing else before it.  The oracle is unchanged: the reference never depends on history."""
     idx = user_shape_indices(tier)
-    return [('history', a, b) for a in idx for b in idx if a != b]
+    pairs = [(a, b) for a in idx for b in idx if a != b]
+    if tier == 'quick':
+        # quick: the ordered pairs of RELATED types (same inheritance family, one contains the other, or the same type under an
+        # alias) - the pairs that can share class-level state through the MRO or a validator object; thorough: every ordered pair
+        u = universe(tier)
+        pairs = [(a, b) for a, b in pairs if _related(u, a, b)]
+    return [('history', a, b) for a, b in pairs]
+
+
+def _family(t):
+    while getattr(t, 'parent_type', None) is not None:
+        t = t.parent_type
+    return t
+
+
+def _members(t):
+    """User types mentioned by the fields / tags / subtypes of t and of its ancestors (through wrappers and aliases)."""
+    out = set()
+    cur = t
+    while cur is not None:
+        fields = list(cur.fields)
+        if isinstance(cur, dt.Struct) and cur.has_enumerated_subtypes():
+            fields += list(cur.get_enumerated_subtypes())
+        for f in fields:
+            x = f.data_type
+            while True:
+                if isinstance(x, (dt.Alias, dt.Nullable, dt.List)):
+                    x = x.data_type
+                elif isinstance(x, dt.Map):
+                    x = x.value_data_type
+                else:
+                    break
+            if isinstance(x, (dt.Struct, dt.Union)):
+                out.add(x)
+        cur = cur.parent_type
+    return out
+
+
+def _related(u, a, b):
+    ta, tb = rt.unalias(u.ir_type('alias', a)), rt.unalias(u.ir_type('alias', b))
+    if isinstance(ta, dt.Nullable):
+        ta = rt.unalias(ta.data_type)
+    if isinstance(tb, dt.Nullable):
+        tb = rt.unalias(tb.data_type)
+    return ta is tb or _family(ta) is _family(tb) or ta in _members(tb) or tb in _members(ta)
 
 
 def history_task(body, item, tier):
